@@ -20,7 +20,7 @@ RULE = ('object graphs of 1-7 containers (dict, OrderedDict, list, tuple, attrib
         'factory, raising factory}. Observed: exception class or the final state of every original cell (objects created during the '
         'run inlined) and the number of factory calls; returned object identity and plain-Python assignment on a copy are compared on '
         'the implementation side. Non-trivial: path length >= 2, or a failure, or missing= creating >= 1 segment.')
-ASSUMPTIONS = ['S-rooted destinations are not generated; list / dict literal values (copied by argument mode) are not generated',
+ASSUMPTIONS = ['S-rooted destinations are exercised on the implementation side only (every generated assignment is repeated through S.v / S[\'v\'] holding the target and must have the same effect; fixed sroot:* scenarios for a scope name that is itself absent); list / dict literal values (copied by argument mode) are not generated',
                'raising __setitem__ containers are not generated (raising __setattr__ objects, tuples and scalars cover the fault classes)']
 SHARD = 300
 
@@ -127,6 +127,7 @@ def broadcast(rng):
 def generate(rng, tier):
     n = 1500 if tier == 'quick' else 12000
     out = [{'kind': 'glommer', 'i': i} for i in range(len(glommer_scenarios()))]
+    out += [{'kind': 'sroot', 'i': i} for i in range(len(sroot_scenarios()))]
     for _ in range(n // 8):
         cells, path = broadcast(rng)
         out.append({'cells': cells, 'target': {'ref': 0}, 'path': path, 'val': {'lit': rng.choice([9, 'w'])}, 'missing': None})
@@ -191,6 +192,45 @@ def glommer_scenarios():
         ('userdict-tail', ud_glommer, lambda: collections.UserDict(keep=1), 'x.y.z', collections.UserDict, 'v'),
         ('dict-tail', box_glommer, lambda: {}, 'a.b.c', dict, 0),
     ]
+
+
+def sroot_scenarios():
+    """Assign under an S root (F35): the scope name spelled S.k / S['k'] / Path(S, 'k'), alone and as the first of several steps, bound,
+    or absent with missing=; (spec, reader, expected value of the reader)"""
+    from glom import S, T, Assign, Path, Val
+
+    class O:
+        pass
+    return [
+        ('S.k alone', (Assign(S.k, T['v']), S.k), 5),
+        ("S['k'] alone", (Assign(S['k'], T['v']), S['k']), 5),
+        ("Path(S, 'k') alone", (Assign(Path(S, 'k'), T['v']), S.k), 5),
+        ('S.box[a]', (S(box=Val({})), Assign(S.box['a'], T['v']), S.box), {'a': 5}),
+        ('S.box[a][b]', (S(box=Val({'a': {}})), Assign(S.box['a']['b'], T['v']), S.box), {'a': {'b': 5}}),
+        ("S['box'][a][b] missing a", (S(box=Val({})), Assign(S['box']['a']['b'], T['v'], missing=dict), S.box), {'a': {'b': 5}}),
+        ('S.box[a][b][c] missing a', (S(box=Val({})), Assign(S.box['a']['b']['c'], T['v'], missing=dict), S.box), {'a': {'b': {'c': 5}}}),
+        ('S.box absent, missing=', (Assign(S.box['a']['b'], T['v'], missing=dict), S.box), {'a': {'b': 5}}),
+        ("S['box'] absent, missing=", (Assign(S['box']['a'], T['v'], missing=dict), S['box']), {'a': 5}),
+        ('S.o.z attribute', (S(o=Val(O())), Assign(S.o.z, T['v']), S.o.z), 5),
+        ('S.box.*[k]', (S(box=Val({'p': {}, 'q': {}})), Assign(S.box.__star__()['k'], T['v']), S.box), {'p': {'k': 5}, 'q': {'k': 5}}),
+        ('shadowing a binding', (S(k=Val(1)), Assign(S.k, T['v']), S.k), 5),
+    ]
+
+
+def run_sroot(case):
+    import glom
+    name, spec, want = sroot_scenarios()[case['i']]
+    target = {'v': 5}
+    try:
+        got = glom.glom(target, spec)
+    except Exception as e:
+        return {'problems': ['sroot %s: raised %s' % (name, type(e).__name__)]}
+    problems = []
+    if got != want:
+        problems.append('sroot %s: reading the destination back gives %r, not %r' % (name, got, want))
+    if target != {'v': 5}:
+        problems.append('sroot %s: the target was modified: %r' % (name, target))
+    return {'problems': problems}
 
 
 def run_glommer(case):
@@ -324,21 +364,26 @@ def run_impl(case):
     import glom
     if case.get('kind') == 'glommer':
         return run_glommer(case)
-    hr = HeapRealiser(case['cells'], class_factory)
-    target = hr.val(case['target'])
-    v = case['val']
-    if 'lit' in v:
-        val = v['lit']
-    elif 'opaque' in v:
-        val = glom.Val(glom.T['zz'])
-    elif 'ref' in v:
-        val = hr.objs[v['ref']]
-    else:
-        t = glom.T
-        for _, a in v['path']:
-            t = t[a]
-        val = t
-    fac = factory_of(case['missing'])
+    if case.get('kind') == 'sroot':
+        return run_sroot(case)
+
+    def setup():
+        hr = HeapRealiser(case['cells'], class_factory)
+        target = hr.val(case['target'])
+        v = case['val']
+        if 'lit' in v:
+            val = v['lit']
+        elif 'opaque' in v:
+            val = glom.Val(glom.T['zz'])
+        elif 'ref' in v:
+            val = hr.objs[v['ref']]
+        else:
+            t = glom.T
+            for _, a in v['path']:
+                t = t[a]
+            val = t
+        return hr, target, val, factory_of(case['missing'])
+    hr, target, val, fac = setup()
     before = snapshot(hr, case['cells'])
     try:
         kw = {'missing': fac} if fac is not None else {}
@@ -347,8 +392,27 @@ def run_impl(case):
         out = exc_outcome(e)
         out['after'] = snapshot(hr, case['cells'])
         out['unchanged'] = out['after'] == before
-        return out
-    return {'ok': True, 'same_object': ret is target, 'after': snapshot(hr, case['cells']), 'calls': fac.n if fac else 0}
+    else:
+        out = {'ok': True, 'same_object': ret is target, 'after': snapshot(hr, case['cells']), 'calls': fac.n if fac else 0}
+    # the same destination reached from a scope variable holding the target — Assign(S.v.<path>, ...) and Assign(S['v'].<path>, ...)
+    # (F35): same effect on the heap, same outcome, same number of factory calls
+    hr2, target2, val2, fac2 = setup()
+    kw = {'missing': fac2} if fac2 is not None else {}
+    root = glom.S.v if len(repr(case['path'])) % 2 else glom.S['v']
+    try:
+        bp = build_path(case['path'])
+        bp = glom.Path.from_text(bp) if isinstance(bp, str) else bp
+        glom.glom(target2, (glom.S(v=glom.T), glom.Assign(glom.Path(root, bp), val2, **kw)))
+    except Exception as e:
+        o2 = {'raise': exc_outcome(e)['raise']}
+    else:
+        o2 = {'ok': True, 'calls': fac2.n if fac2 else 0}
+    o2['after'] = snapshot(hr2, case['cells'])
+    a = {k: out.get(k) for k in ('ok', 'raise', 'after', 'calls')}
+    b = {k: o2.get(k) for k in ('ok', 'raise', 'after', 'calls')}
+    if a != b:
+        out['problems'] = ['the same assignment through %r differs: %r, direct %r' % (root, b, a)]
+    return out
 
 
 def nval_coq(v):
@@ -398,7 +462,7 @@ _TRIV = None
 
 def coq_case(case, out):
     global _TRIV
-    if case.get('kind') == 'glommer':
+    if case.get('kind') in ('glommer', 'sroot'):
         # decided on the implementation side; the Coq side gets a small ordinary case with its real outcome
         if _TRIV is None:
             t = corpus()[1]
@@ -418,14 +482,16 @@ def coq_case(case, out):
 
 
 def model_dump_term(case):
-    if case.get('kind') == 'glommer':
+    if case.get('kind') in ('glommer', 'sroot'):
         return '0'
     return 'm_model %s' % coq_case(case, {'raise': 'x'})
 
 
 def direct_oracle(case, out):
-    if case.get('kind') == 'glommer':
+    if case.get('kind') in ('glommer', 'sroot'):
         return '; '.join(out['problems'][:2]) if out.get('problems') else None
+    if out.get('problems'):
+        return '; '.join(out['problems'][:2])
     if out.get('ok') and not out.get('same_object'):
         return 'assign() did not return the target object'
     wild = any(p[0] in 'xX' for p in case['path'])
@@ -435,12 +501,14 @@ def direct_oracle(case, out):
 
 
 def nontrivial(case, out):
-    if case.get('kind') == 'glommer':
+    if case.get('kind') in ('glommer', 'sroot'):
         return True
     return len(case['path']) >= 2 or 'raise' in out or out.get('calls', 0) >= 1
 
 
 def classify(case, out):
+    if case.get('kind') == 'sroot':
+        return 'sroot:%d' % case['i']
     if case.get('kind') == 'glommer':
         return 'glommer:%d' % case['i']
     wild = any(p[0] in 'xX' for p in case['path'])
